@@ -167,6 +167,11 @@ def compare(g, m: Model) -> str | None:
 def probe_independence(g, n: int) -> str | None:
     """Copies are independent both ways; negation leaves the original alone, swaps/negates, is an involution."""
     before = read(g).key
+    repr(g)
+    str(g)
+    _ = g == g
+    if read(g).key != before:
+        return "repr() / str() / == changed the object"
     c = g.copy()
     if read(c).key != before:
         return "copy() differs from the original"
